@@ -119,15 +119,17 @@ class Ctor:
     """one constructor of a sum-typed python value: Lean pattern, the python classes it stands for, the value the variable is
     refined to inside the branch (text handed on to callees) and extra refinements (expression text -> V)"""
 
-    def __init__(self, pat, classes, refined, extra=None):
+    def __init__(self, pat, classes, refined, extra=None, other=False, absent=False):
         self.pat, self.classes, self.refined, self.extra = pat, list(classes), refined, extra or {}
+        self.other = other        # taken by the `else` branch of a dispatch (any class not tested)
+        self.absent = absent      # the value does not exist: the statement is not reached at all
 
 
 class WT:
     """one writer target"""
 
     def __init__(self, name, cls, params, vals, func="create_message", sums=None, hoist=False, ignore=(), static_false=(),
-                 msgvar=None, msgtype=None, doc="", model="", calls=None):
+                 msgvar=None, msgtype=None, doc="", model="", calls=None, unroll=None):
         self.name, self.cls, self.func = name, cls, func
         self.params = params          # lean binder text
         self.vals = vals              # python expression text -> V
@@ -138,6 +140,7 @@ class WT:
         self.msgvar, self.msgtype = msgvar, msgtype   # pre-existing message (the writer's self._commonroad_msg)
         self.doc, self.model = doc, model
         self.calls = calls or {}      # per-target override of CALLS
+        self.unroll = unroll or {}    # loop over attribute NAMES: iterable text -> [("const", name) | ("generic", list, binder, name V, value V)]
         self.file = WRITER
 
 
@@ -156,8 +159,10 @@ CALLS = {
     # parameter `rec`; tie_W_Shape proves the model's encShape is its fixed point, so callers use encShape
     "ShapeMessage.create_message": ("CR.PBF.encShape", ["Shape"]),
     # message `State` / `SignalState` are filled by getattr/setattr loops over attribute NAMES: translated separately (W_State…)
+    # message `State` is filled through getattr(msg, <name>): W_State is tied to encState up to null padding (tie_W_State), so the
+    # callers use the model's encState
     "StateMessage.create_message": ("CR.PBF.encState", ["St"]),
-    "SignalStateMessage.create_message": ("CR.PBF.encSig", ["Sig"]),
+    "SignalStateMessage.create_message": ("W_SignalState", ["Sig"]),
     "TimeStampMessage.create_message": ("W_TimeStamp", ["Tm"]),
     "GeoTransformationMessage.create_message": ("W_GeoTransformation", ["Geo"]),
     "EnvironmentMessage.create_message": ("W_Environment", ["Envr"]),
@@ -195,6 +200,7 @@ CANON = {
     "SignalState": ["time_step", "horn", "indicator_left", "indicator_right", "braking_lights", "hazard_warning_lights",
                     "flashing_blue_lights"],
     "Occupancy": ["time_step", "shape"],
+    "State": ["point", "shape", "*", "time_step"],
     "SetBasedPrediction": ["initial_time_step", "occupancy_set"],
     "Trajectory": ["initial_time_step", "states"],
     "TrajectoryPrediction": ["trajectory", "shape"],
@@ -228,6 +234,16 @@ SIGN_COUNTRIES = ["Germany", "Zamunda", "Usa", "China", "Spain", "Russia", "Arge
                   "Italy", "PuertoRico"]
 
 
+def signal_slots(repo):
+    tree = ast.parse(open(os.path.join(repo, "commonroad/scenario/state.py"), encoding="utf-8").read())
+    for n in tree.body:
+        if isinstance(n, ast.ClassDef) and n.name == "SignalState":
+            for x in n.body:
+                if isinstance(x, ast.Assign) and ast.unparse(x.targets[0]) == "__slots__":
+                    return {"SignalState.__slots__": [("const", e.value) for e in x.value.elts]}
+    raise Unsupported("SignalState.__slots__ not found")
+
+
 def writer_targets():
     I, D, B, S = "Int", "Dbl", "Bool", "Str"
     shape_sum = [Ctor(".rect l w c o", ["Rectangle"], V("l w c o", "RectArgs")),
@@ -256,6 +272,26 @@ def writer_targets():
            sums={"FloatEOI": [Ctor(".exact d", ["float", "int"], V("d", D)),
                            Ctor(".interval a b", ["Interval"], V("a b", "FloatIvArgs"))]},
            doc="an exact value is a python float or int (both tests needed)", model="encFloatEOI"),
+        WT("W_State", "StateMessage", "(s : St)",
+           {"state.time_step": V("s.t", "IntEOI"), "state.position": V("s.pos", "OptPos")},
+           sums={"OptPos": [Ctor("some (.point p)", ["np.ndarray"], V("p", "Pt")),
+                            Ctor("some (.shape sh)", ["Shape"], V("sh", "Shape"), other=True),
+                            Ctor("none", ["NoneType"], V("()", "None"), absent=True)]},
+           unroll={"state.used_attributes": [("const", "position"), ("const", "time_step"),
+                                             ("generic", "s.attrs", "kv", "kv.1", V("kv.2", "FloatEOI"), "state")]},
+           doc="`used_attributes` = position (iff the state has one), time_step, the populated float attributes `s.attrs` "
+               "(never None); a float attribute goes to the field of its (mapped) NAME, which raises AttributeError when message "
+               "State has no such field", model="encState"),
+        WT("W_SignalState", "SignalStateMessage", "(s : Sig)",
+           {"signal_state.time_step": V("s.t", "Option IntEOI"), "signal_state.horn": V("s.horn", "Option Bool"),
+            "signal_state.indicator_left": V("s.indicator_left", "Option Bool"),
+            "signal_state.indicator_right": V("s.indicator_right", "Option Bool"),
+            "signal_state.braking_lights": V("s.braking_lights", "Option Bool"),
+            "signal_state.hazard_warning_lights": V("s.hazard_warning_lights", "Option Bool"),
+            "signal_state.flashing_blue_lights": V("s.flashing_blue_lights", "Option Bool")},
+           unroll=signal_slots,
+           doc="the loop over SignalState.__slots__ (read from scenario/state.py) unrolled; a slot that is not set at all "
+               "(hasattr False) is the snapshot's None", model="encSig"),
         WT("W_TimeStamp", "TimeStampMessage", "(t : Tm)",
            {"time_stamp.year": V("t.year", "Option Int"), "time_stamp.month": V("t.month", "Option Int"),
             "time_stamp.day": V("t.day", "Option Int"), "time_stamp.hours": V("t.h", I), "time_stamp.minutes": V("t.m", I)},
@@ -380,10 +416,12 @@ class State:
         self.env = {}        # local name -> V (or a poison string)
         self.ref = {}        # refinements: expression text -> V
         self.fields = {}     # field name -> Field   (insertion order = statement order)
+        self.dyn = []        # Lean texts of `List (String × PB)`: fields set through getattr(msg, <computed name>)
 
     def copy(self):
         s = State()
         s.env, s.ref = dict(self.env), dict(self.ref)
+        s.dyn = list(self.dyn)
         s.fields = {k: Field(f.single, list(f.parts) if f.parts is not None else None) for k, f in self.fields.items()}
         return s
 
@@ -394,8 +432,8 @@ class Poison:
 
 
 class WriterTr:
-    def __init__(self, t: WT, msgs, enums):
-        self.t, self.msgs, self.enums = t, msgs, enums
+    def __init__(self, t: WT, msgs, enums, tree=None):
+        self.t, self.msgs, self.enums, self.tree = t, msgs, enums, tree
         self.msgvar, self.msgtype = t.msgvar, t.msgtype
         self.n = 0
 
@@ -414,9 +452,20 @@ class WriterTr:
     def text(n):
         return ast.unparse(n)
 
+    def canon(self, n, st):
+        """expression text, with getattr(x, <constant attribute name>) written x.<name>"""
+        if isinstance(n, ast.Call) and self.text(n.func) == "getattr" and len(n.args) == 2:
+            try:
+                a = self.ev(n.args[1], st)
+            except Unsupported:
+                return self.text(n)
+            if a.ty == "Const":
+                return f"{self.text(n.args[0])}.{a.extra}"
+        return self.text(n)
+
     # ---- expressions
     def ev(self, n, st: State) -> V:
-        txt = self.text(n)
+        txt = self.canon(n, st)
         if txt in st.ref:
             return st.ref[txt]
         if isinstance(n, ast.Name) and n.id in st.env:
@@ -435,6 +484,17 @@ class WriterTr:
             return V(q(n.value), "Name")
         if isinstance(n, ast.Call):
             f = self.text(n.func)
+            if f == "getattr" and len(n.args) == 2:
+                a = self.ev(n.args[1], st)
+                if a.ty == "AttrName" and self.text(n.args[0]) == a.extra[0]:
+                    return a.extra[1]                      # value of the generic attribute
+                raise Unsupported(f"getattr {txt}")
+            if f.endswith("._map_to_pb_prop") and len(n.args) == 1:
+                a = self.ev(n.args[0], st)
+                if a.ty != "AttrName":
+                    raise Unsupported("_map_to_pb_prop of something else than an attribute name")
+                self.check_map_to_pb_prop(f)
+                return V(f"(CR.PyC02.mapToPbProp {a.lean})", "FieldName")
             if f == "list" and len(n.args) == 1:
                 return self.ev(n.args[0], st)
             if f == "list" and not n.args:
@@ -459,8 +519,16 @@ class WriterTr:
                     if v.ty != ty:
                         raise Unsupported(f"argument of {f}: {v.ty} where {ty} is expected")
                     args.append(v.lean if " " not in v.lean or ty.endswith("Args") else f"({v.lean})")
-                return V(f"({fn} {' '.join(args)})", "Msg")
+                return V(f"({fn} {' '.join(args)})", "Msg", f.split(".")[0][:-len("Message")] if f.split(".")[0].endswith("Message") else None)
         raise Unsupported(f"expression {txt}")
+
+    def check_map_to_pb_prop(self, f):
+        cls = f.split(".")[0]
+        fn = find_func(self.tree, cls, "_map_to_pb_prop")
+        body = [x for x in fn.body if not (isinstance(x, ast.Expr) and isinstance(x.value, ast.Constant))]
+        want = "return re.sub('(?<!^)(?=[A-Z])', '_', prop).lower()"
+        if len(body) != 1 or ast.unparse(body[0]) != want or [a.arg for a in fn.args.args] != ["prop"]:
+            raise Unsupported(f"{f} is not the camel-case -> snake-case map any more")
 
     def leaf(self, field, v: V) -> str:
         _, _, ty, tyname, _ = self.fdesc(field)
@@ -507,6 +575,8 @@ class WriterTr:
         """executes one simple statement; returns 'return' on `return <msg>`"""
         if isinstance(s, ast.Expr) and isinstance(s.value, ast.Constant):
             return None                                       # docstring
+        if isinstance(s, ast.Pass):
+            return None
         if isinstance(s, ast.Return):
             if s.value is None or not self.is_msg(s.value):
                 raise Unsupported("return of something else than the message")
@@ -550,6 +620,25 @@ class WriterTr:
                     return None
             if self.text(c.func).startswith("logger."):
                 return None
+            # getattr(m, <computed field name>).CopyFrom(sub)
+            if meth == "CopyFrom" and isinstance(obj, ast.Call) and self.text(obj.func) == "getattr" and len(obj.args) == 2 \
+                    and self.is_msg(obj.args[0]) and len(c.args) == 1:
+                k = self.ev(obj.args[1], st)
+                v = self.ev(c.args[0], st)
+                if k.ty not in ("FieldName", "AttrName") or v.ty != "Msg" or not isinstance(v.extra, str):
+                    raise Unsupported(f"dynamic field {k.ty} := {v.ty}")
+                names = "Gen." + self.msgtype + "_" + v.extra + "_fields"
+                st.dyn.append(f"({k.lean}, CR.PyC02.dynSet {names} {k.lean} {v.lean})")
+                return None
+        if isinstance(s, ast.Expr) and isinstance(s.value, ast.Call) and self.text(s.value.func) == "setattr" \
+                and len(s.value.args) == 3 and self.is_msg(s.value.args[0]):
+            a = self.ev(s.value.args[1], st)
+            if a.ty != "Const":
+                raise Unsupported("setattr with a computed name")
+            if a.extra in self.t.ignore:
+                return None
+            self.set_single(st, a.extra, self.leaf(a.extra, self.ev(s.value.args[2], st)))
+            return None
         raise Unsupported(f"statement {self.text(s)[:60]}")
 
     # ---- conditions
@@ -558,7 +647,7 @@ class WriterTr:
         if isinstance(test, ast.Compare) and len(test.ops) == 1 and isinstance(test.comparators[0], ast.Constant) \
                 and test.comparators[0].value is None and isinstance(test.ops[0], (ast.Is, ast.IsNot)):
             pos = isinstance(test.ops[0], ast.IsNot)
-            txt = self.text(test.left)
+            txt = self.canon(test.left, st)
             v = self.ev(test.left, st)
             if v.ty.startswith("Option "):
                 return ("opt", txt, v, pos)
@@ -566,6 +655,21 @@ class WriterTr:
         cls = self.isinst(test)
         if cls is not None:
             return ("isinst",) + cls
+        if isinstance(test, ast.Compare) and len(test.ops) == 1 and isinstance(test.ops[0], (ast.Eq, ast.NotEq)) \
+                and isinstance(test.comparators[0], ast.Constant) and isinstance(test.comparators[0].value, str):
+            a = self.ev(test.left, st)
+            eq = isinstance(test.ops[0], ast.Eq)
+            if a.ty == "Const":
+                return ("static", (a.extra == test.comparators[0].value) == eq)
+            if a.ty == "AttrName":
+                # the generic attributes of the snapshot never are position / time_step
+                if test.comparators[0].value in ("position", "time_step"):
+                    return ("static", not eq)
+        if isinstance(test, ast.Call) and self.text(test.func) == "hasattr" and len(test.args) == 2:
+            a = self.ev(test.args[1], st)
+            if a.ty == "Const":
+                key = f"{self.text(test.args[0])}.{a.extra}"
+                return ("static", key in self.t.vals or key in st.ref)
         if isinstance(test, (ast.Name, ast.Attribute)):
             v = self.ev(test, st)
             if v.ty == "Bool":
@@ -588,6 +692,9 @@ class WriterTr:
         """executes a statement list on st; returns the Lean text of the function result when a `return` / hoisted dispatch
         is reached, else None"""
         for i, s in enumerate(stmts):
+            if isinstance(s, ast.If) and len(s.body) == 1 and isinstance(s.body[0], ast.Continue) and not s.orelse:
+                # `if c: continue` ; rest   ==   if c: pass else: rest
+                return self.if_(ast.If(test=s.test, body=[ast.Pass()], orelse=list(stmts[i + 1:])), [], st)
             if isinstance(s, ast.If):
                 r = self.if_(s, stmts[i + 1:], st)
                 if r is not None:
@@ -603,18 +710,26 @@ class WriterTr:
     def result(self, st: State) -> str:
         order = CANON.get(self.msgtype, [])
         names = [f for f in order if f in st.fields] + [f for f in st.fields if f not in order]
-        items = []
-        for f in names:
+
+        def item(f):
             fv = st.fields[f]
             if fv.parts is not None:
-                items.append(f"({q(f)}, PB.rep ({' ++ '.join(fv.parts) if fv.parts else '[]'}))")
-            else:
-                items.append(f"({q(f)}, {fv.single})")
-        return "PB.msg [" + ", ".join(items) + "]"
+                return f"({q(f)}, PB.rep ({' ++ '.join(fv.parts) if fv.parts else '[]'}))"
+            return f"({q(f)}, {fv.single})"
+        if not st.dyn:
+            return "PB.msg [" + ", ".join(item(f) for f in names) + "]"
+        # fields set through computed names: canonical place "*" of the order table
+        k = order.index("*") if "*" in order else len(order)
+        before = [f for f in names if f in order[:k]]
+        after = [f for f in names if f not in before]
+        return ("PB.msg ([" + ", ".join(item(f) for f in before) + "] ++ (" + " ++ ".join(st.dyn) + " ++ ["
+                + ", ".join(item(f) for f in after) + "]))")
 
     def for_(self, s: ast.For, st: State):
         if s.orelse or not isinstance(s.target, ast.Name):
             raise Unsupported("for loop with else / tuple target")
+        if self.text(s.iter) in self.t.unroll:
+            return self.unrolled(s, self.t.unroll[self.text(s.iter)], st)
         it = self.ev(s.iter, st)
         if not it.ty.startswith("List "):
             raise Unsupported(f"loop over a {it.ty}")
@@ -638,6 +753,26 @@ class WriterTr:
                 if not (p.startswith("[") and p.endswith("]")):
                     raise Unsupported("nested loop appending to a repeated field")
                 self.add_part(st, k, f"List.map (fun {lv} => {p[1:-1]}) {it.lean}")
+
+    def unrolled(self, s: ast.For, elems, st: State):
+        """loop over attribute NAMES: one pass of the body per constant name, one symbolic pass for the generic attributes"""
+        var = s.target.id
+        for el in elems:
+            if el[0] == "const":
+                st.env[var] = V(q(el[1]), "Const", el[1])
+                if self.block(s.body, st) is not None:
+                    raise Unsupported("return inside a loop")
+            else:
+                _, lst, binder, name, value, obj = el
+                sub = State()
+                sub.env, sub.ref = dict(st.env), dict(st.ref)
+                sub.env[var] = V(name, "AttrName", (obj, value))
+                if self.block(s.body, sub) is not None:
+                    raise Unsupported("return inside a loop")
+                if sub.fields or len(sub.dyn) != 1:
+                    raise Unsupported("generic attribute pass must set exactly one computed field")
+                st.dyn.append(f"List.map (fun {binder} => {sub.dyn[0]}) {lst}")
+        st.env.pop(var, None)
 
     def if_(self, s: ast.If, rest, st: State):
         kind = self.classify(s.test, st)
@@ -680,6 +815,9 @@ class WriterTr:
 
     def merge(self, st, a: State, b: State, single, lists):
         """st := the two branch states merged field by field"""
+        if a.dyn != b.dyn:
+            raise Unsupported("computed field set inside a branch")
+        st.dyn = list(a.dyn)
         names = list(a.fields) + [f for f in b.fields if f not in a.fields]
         out = {}
         for f in names:
@@ -745,9 +883,14 @@ class WriterTr:
                     break
             if body is None:
                 body = else_body
+            if c.absent:
+                body = []
             branches.append((c, body))
         tested = {x for classes, _ in chain for x in classes}
         known = {x for c in ctors for x in c.classes}
+        for c in ctors:
+            if c.other and any([x for x in c.classes if x in classes] for classes, _ in chain):
+                raise Unsupported(f"constructor {c.pat} is expected in the else branch")
         if tested - known:
             raise Unsupported(f"dispatch on classes {sorted(tested - known)} the sum type of {txt} does not have")
         if self.t.hoist:
@@ -768,6 +911,8 @@ class WriterTr:
             b.ref.update(c.extra)
             if self.block(body, b) is not None:
                 raise Unsupported("return inside a dispatch branch")
+            if b.dyn != st.dyn:
+                raise Unsupported("computed field set inside a dispatch")
             states.append((c, b))
         scrut = sv.lean
         names = []
@@ -830,9 +975,30 @@ open CR CR.PBF CR.PyC02
 """
 
 
+def translate_descriptors(msgs, enums):
+    out = ["/-- every message of the shipped format: (field, label, type) in descriptor order, read from the *_pb2.py files -/",
+           "def descriptor : List (String × List (String × String × String)) := ["]
+    rows = []
+    for m in sorted(msgs):
+        fs = ", ".join(f"({q(f)}, {q(lab)}, {q(tyname if ty in ('message', 'enum') else ty)})" for f, lab, ty, tyname, _ in msgs[m])
+        rows.append(f"  ({q(m)}, [{fs}])")
+    out.append(",\n".join(rows) + "]")
+    out.append("")
+    out.append("/-- the fields of message State that hold a FloatExactOrInterval, in descriptor order -/")
+    out.append("def State_FloatExactOrInterval_fields : List String := ["
+               + ", ".join(q(f) for f, lab, ty, tyname, _ in msgs["State"] if tyname == "FloatExactOrInterval") + "]")
+    out.append("")
+    out.append("/-- enum type -> member names -/")
+    out.append("def enumTables : List (String × List String) := [\n"
+               + ",\n".join(f"  ({q(e)}, [{', '.join(q(x) for x in enums[e])}])" for e in sorted(enums)) + "]")
+    return "\n".join(out) + "\n"
+
+
 def translate_writer(repo, t, msgs, enums, tree):
     fn = find_func(tree, t.cls, t.func)
-    return WriterTr(t, msgs, enums).function(fn)
+    if callable(t.unroll):
+        t.unroll = t.unroll(repo)
+    return WriterTr(t, msgs, enums, tree).function(fn)
 
 
 def all_targets(repo):
@@ -849,7 +1015,7 @@ def all_targets(repo):
             cache["desc"] = load_descriptors(repo)
         return cache["desc"]
 
-    out = []
+    out = [("D_descriptors", lambda: translate_descriptors(*desc()))]
     for t in writer_targets():
         out.append((t.name, (lambda t=t: translate_writer(repo, t, desc()[0], desc()[1], tree(t.file)))))
     return out
